@@ -125,9 +125,12 @@ func derefStruct(t types.Type) (types.Type, bool) {
 
 func (x *Exec) localByName(name string) *ssa.Alloc {
 	base, ord := name, 1
+	tsel := ""
 	if i := strings.Index(name, "#"); i >= 0 {
 		base = name[:i]
-		fmt.Sscanf(name[i+1:], "%d", &ord)
+		if n, err := fmt.Sscanf(name[i+1:], "%d", &ord); n != 1 || err != nil {
+			ord, tsel = 1, name[i+1:] // f#SettingsFrame: the local f whose type mentions SettingsFrame
+		}
 	}
 	if strings.HasPrefix(base, "$") {
 		base = base[1:]
@@ -136,6 +139,9 @@ func (x *Exec) localByName(name string) *ssa.Alloc {
 	for _, b := range x.fn.Blocks {
 		for _, in := range b.Instrs {
 			if a, ok := in.(*ssa.Alloc); ok && a.Comment == base {
+				if tsel != "" && !strings.Contains(a.Type().String(), tsel) {
+					continue
+				}
 				n++
 				if n == ord {
 					return a
@@ -608,6 +614,22 @@ func (x *Exec) evalCall(env *SpecEnv, e *spec.Call) SVal {
 	case "fmtx":
 		sl := e.Args[0].(*spec.StrLit)
 		return SVal{T: smt.App("fmt$x$"+sanitizeFlags(sl.Val), smt.Seq(smt.Int), arg(1).T), GT: types.Typ[types.String]}
+	case "mk":
+		// mk(T, v1, ..., vn): the struct value of type T with the given field values (in declaration order)
+		tn := e.Args[0].String()
+		srt, gt, err := E.resolveType(env.Pkg, &spec.Type{Kind: "name", Name: tn})
+		if err != nil || gt == nil || !isStruct(gt) {
+			specFail("mk: %s is not a struct type", tn)
+		}
+		u := gt.Underlying().(*types.Struct)
+		if len(e.Args)-1 != u.NumFields() {
+			specFail("mk(%s): %d values for %d fields", tn, len(e.Args)-1, u.NumFields())
+		}
+		var fargs []*smt.Term
+		for i := 1; i < len(e.Args); i++ {
+			fargs = append(fargs, arg(i).T)
+		}
+		return SVal{T: smt.Ctor(srt, fargs...), GT: gt}
 	case "fmtxs":
 		// fmtxs("", b): fmt %x of a byte slice / string
 		sl := e.Args[0].(*spec.StrLit)
